@@ -1354,3 +1354,10 @@ M("c17-reduce-initial-by-value", ["C17"], VM,
 M("c17-iteration-this-dropped", ["C17"], VM,
   "vm._call_callback(callback, [elem, i, arr], this_arg)", "vm._call_callback(callback, [elem, i, arr])",
   [("C17", "C17-R26", "this-argument")], count=7, note="fix 1be946b reverted for thisArg")
+M("c12-comparator-runs-on-copied-globals", ["C12"], CX,
+  "        vm.globals = self._globals\n        if self._current_vm is not None:\n", "        vm.globals.update(self._globals)\n        if self._current_vm is not None:\n",
+  [("C12", "C12-R4", "_call_function")], note="fix af64456 reverted half-way: copy-in without copy-back",
+  more=[])
+M("c08-delete-returns-found-flag", ["C08"], VM,
+  "            obj.delete(key_str)\n            # true unless the property exists and cannot be deleted; objects\n            # have no such properties, and deleting one that is not there\n            # succeeds\n            return True\n", "            return obj.delete(key_str)\n",
+  [("C08", "C08-R22", "_delete_property")], note="fix 3c567ff reverted")
